@@ -53,6 +53,14 @@ def run(ck: Checker):
                        or (None if (c._outputs == ([res] if kw.get('add_outputs') else [])) else f'outputs {c._outputs} with add_outputs={kw.get("add_outputs", False)}')
                        or (None if kw.get('result_label') in (None, res) else 'result label ignored'),
                        f'add_if_then_else{kw or ""}: r = then if if_ else else_; outputs marked only on request', kwargs=kw)
+    # operands that coincide (the same gate as condition and branch, both branches the same gate, ...)
+    for pat, name in (((0, 1, 0), 'if = else'), ((0, 0, 1), 'if = then'), ((0, 1, 1), 'then = else'), ((0, 0, 0), 'all three the same gate')):
+        G.check_gadget(ck, B, 'C09.GADGET', GEN, 'add_if_then_else', 2, lambda n, pat=pat: tuple(n[i] for i in pat),
+                       lambda a, res, ev, c, pat=pat: None if bool(ev(res)) == (a[f'i{pat[1]}'] if a[f'i{pat[0]}'] else a[f'i{pat[2]}']) else 'result != (then if if_ else else_)',
+                       f'add_if_then_else with coinciding operands ({name}): r = then if if_ else else_')
+    G.check_gadget(ck, B, 'C09.GADGET', GEN, 'add_pairwise_if_then_else', 3, lambda n: ([n[0], n[1]], [n[2], n[1]], [n[0], n[0]]),
+                   lambda a, res, ev, c: None if [bool(ev(r)) for r in res] == [(a['i2'] if a['i0'] else a['i0']), (a['i1'] if a['i1'] else a['i0'])] else 'r_i != ite(if_i, then_i, else_i)',
+                   'add_pairwise_if_then_else with coinciding operands (if_0 = else_0, if_1 = then_1): r_i = ite(if_i, then_i, else_i)')
     for kw in ({}, {'add_outputs': True}):
         G.check_gadget(ck, B, 'C09.GADGET', GEN, 'add_pairwise_xor', 4, lambda n: (n[:2], n[2:]),
                        lambda a, res, ev, c, kw=kw: (None if [bool(ev(r)) for r in res] == [a['i0'] != a['i2'], a['i1'] != a['i3']] else 'xor_i != x_i xor y_i')
